@@ -512,7 +512,7 @@ func c05Table(r *core.Report) {
 		}
 	})
 
-	r.RunRule("C05.defaults", "the default serialization method per location is the specification's: path and header simple/false, query and cookie form/true", 4, func() {
+	r.RunRule("C05.defaults", "the default serialization method is the specification's: style simple for path and header, form for query and cookie; explode true for form (and deepObject, which is only defined exploded), false for every other style — evaluated for each style a location allows", 4, func() {
 		fd := p.DeclOf("openapi3", "Parameter.SerializationMethod")
 		want := map[string][2]string{"ParameterInPath": {"simple", "false"}, "ParameterInHeader": {"simple", "false"}, "ParameterInQuery": {"form", "true"}, "ParameterInCookie": {"form", "true"}}
 		ast.Inspect(fd.Body, func(n ast.Node) bool {
@@ -521,6 +521,7 @@ func c05Table(r *core.Report) {
 				return true
 			}
 			style, expl := "", ""
+			var explExpr ast.Expr
 			for _, st := range cc.Body {
 				switch s := st.(type) {
 				case *ast.IfStmt:
@@ -535,6 +536,7 @@ func c05Table(r *core.Report) {
 				case *ast.AssignStmt:
 					if len(s.Lhs) == 1 && len(s.Rhs) == 1 && core.ExprStr(s.Lhs[0]) == "explode" {
 						expl = core.ExprStr(s.Rhs[0])
+						explExpr = s.Rhs[0]
 					}
 				}
 			}
@@ -547,7 +549,29 @@ func c05Table(r *core.Report) {
 				if !ok {
 					continue
 				}
-				r.Check(style == w[0] && expl == w[1], "default:"+id.Name, p.Pos(cc.Pos()), "default "+w[0]+"/"+w[1], fmt.Sprintf("the default for %s is %s/explode=%s, the specification says %s/%s: parameters that do not spell out style/explode are decoded with the wrong rules", id.Name, style, expl, w[0], w[1]))
+				r.Check(style == w[0], "default:"+id.Name, p.Pos(cc.Pos()), "default style "+w[0], fmt.Sprintf("the default style for %s is %s, the specification says %s: parameters that do not spell out style are decoded with the wrong rules", id.Name, style, w[0]))
+				// explode: "when style is form, the default value is true; for all other styles false"
+				// (deepObject is only defined exploded, so true is accepted for it) -- evaluated for
+				// every style the location allows
+				loc := strings.ToLower(strings.TrimPrefix(id.Name, "ParameterIn"))
+				seenStyle := map[string]bool{}
+				for _, cell := range c05Allowed[loc] {
+					st := cell[0]
+					if seenStyle[st] {
+						continue
+					}
+					seenStyle[st] = true
+					got, ok := c05EvalExplodeDefault(info3, explExpr, st)
+					key := "default-explode:" + id.Name + "/" + st
+					switch {
+					case !ok:
+						r.Unknown(key, p.Pos(cc.Pos()), "cannot evaluate the default of explode: "+expl)
+					case st == "form" && !got, st != "form" && st != "deepObject" && got, st == "deepObject" && !got:
+						r.Bad(key, p.Pos(cc.Pos()), fmt.Sprintf("a %s parameter with style %s and no explicit explode is decoded with explode=%v: the specification's default is true for form and false for every other style (deepObject is only defined exploded), so `x=1|2|3` for a pipeDelimited array is a parse error instead of [1,2,3]", loc, st, got))
+					default:
+						r.OK(key, p.Pos(cc.Pos()), fmt.Sprintf("explode defaults to %v", got))
+					}
+				}
 			}
 			return true
 		})
@@ -1020,4 +1044,48 @@ func c05Text(r *core.Report) {
 			})
 		}
 	})
+}
+
+// c05EvalExplodeDefault evaluates the initial value of `explode` for a style: a boolean constant,
+// or a combination (||, &&, !, parentheses) of comparisons of the style variable with constants.
+func c05EvalExplodeDefault(info *types.Info, e ast.Expr, style string) (bool, bool) {
+	if e == nil {
+		return false, false
+	}
+	if v, ok := constBool(info, e); ok {
+		return v, true
+	}
+	switch x := ast.Unparen(e).(type) {
+	case *ast.UnaryExpr:
+		if x.Op == token.NOT {
+			v, ok := c05EvalExplodeDefault(info, x.X, style)
+			return !v, ok
+		}
+	case *ast.BinaryExpr:
+		switch x.Op {
+		case token.LOR, token.LAND:
+			a, ok1 := c05EvalExplodeDefault(info, x.X, style)
+			b, ok2 := c05EvalExplodeDefault(info, x.Y, style)
+			if !ok1 || !ok2 {
+				return false, false
+			}
+			if x.Op == token.LOR {
+				return a || b, true
+			}
+			return a && b, true
+		case token.EQL, token.NEQ:
+			for _, pair := range [][2]ast.Expr{{x.X, x.Y}, {x.Y, x.X}} {
+				if c, ok := strConst(info, pair[1]); ok {
+					if _, isConst := strConst(info, pair[0]); !isConst {
+						eq := c == style
+						if x.Op == token.NEQ {
+							eq = !eq
+						}
+						return eq, true
+					}
+				}
+			}
+		}
+	}
+	return false, false
 }
